@@ -187,7 +187,10 @@ RUN = {
     'ensures': ["implies(G.testing, " + ALL_TORN + ")"],
     # once the test phase has begun, every feature gets early_teardown and global_teardown, whatever ends the phase
     'raises': {'Exception': ["implies(G.testing, " + ALL_TORN + ")"], 'BaseException': ["implies(G.testing, " + ALL_TORN + ")"]},
+    'props': {"self.do_run_tests": ['C03', 'C18']},
     'callsites': {
+        # C03: --list-tests (Listing.global_setup clears do_run_tests) reaches no test or layer code
+        'self.run_tests': ["self.do_run_tests"],
         # a feature is only torn down after all features were set up (the loops are not interleaved)
         'feature.global_teardown': ["forall(q, Int, implies(0 <= q and q < len(self.features), self.features[q] in G.gs))",
                                     "forall(q, Int, implies(0 <= q and q < len(self.features), self.features[q] in G.early))"],
